@@ -185,10 +185,25 @@ func (s *Sched) acquire(m *RWMutex, write bool) {
 		s.yield(t)
 	}
 	s.grant(m, t, write)
+	if m.tryPending > 0 {
+		// somebody is about to TryLock this mutex: stop right after acquiring it, so that "the holder was
+		// inside its critical section when the attempt was made" is one of the schedules
+		t.st = tsPoint
+		s.yield(t)
+	}
 }
 
+// try: a TryLock / TryRLock.  The attempt is a scheduling point of its own, and while it is pending every
+// thread that acquires the mutex stops right behind the acquisition (see acquire) - otherwise a critical
+// section would be atomic for the scheduler and the attempt could never fail because of a holder.
 func (s *Sched) try(m *RWMutex, write bool) bool {
 	t := s.me()
+	if !s.aborting.Load() {
+		m.tryPending++
+		t.st = tsPoint
+		s.yield(t)
+		m.tryPending--
+	}
 	if !grantable(m, t, write) {
 		return false
 	}
